@@ -75,7 +75,7 @@ def apply_patch(m):
     it names; None if it no longer applies to the current tree."""
     with open(m["patch"]) as f:
         diff = f.read()
-    rels = [l[6:].strip() for l in diff.splitlines() if l.startswith("+++ b/")]
+    rels = [l[6:].split("\t")[0].strip() for l in diff.splitlines() if l.startswith("+++ b/")]
     tmp = tempfile.mkdtemp(prefix="p-", dir="/dev/shm" if os.path.isdir("/dev/shm") else None)
     try:
         for rel in rels:
